@@ -134,6 +134,20 @@ func init() {
 		"r.unregisterSubscriptionLocked", "r.removeSubscriptionLocked", "r.detachTriggerLocked", "closeSubs", "res.triggerCancel", "cancel", "delete", "s.removed.CompareAndSwap",
 		"trig.initialized.*", "go", "r.executeStartupHooks", "add.resolve.Trigger.Source.Start", "sub.writeError", "s.writeError", "r.doneTriggerFromUpdater", "r.markTriggerInitialized",
 		"r.UnsubscribeSubscription", "r.removeClient", "context.WithCancel", "trig.snapshotSubscriptions", "defer:verifYield"}
+	// C15: the literal → JSON converter and the block string value
+	av := "v2/pkg/ast/ast_value.go"
+	asv := "v2/pkg/ast/ast_val_string_value.go"
+	jm := []string{"if", "return", "for", "buf.*", "quotes.WrapBytes", "d.*", "json.*", "enc.*", "jsonparser.Get", "escapeControlCharacters", "fmt.*", "bytes.*", "splitBytesIntoLines", "commonBlockStringIndent", "leadingWhitespaceCount", "append", "make"}
+	specs["C15"] = []item{
+		{Kind: "conds", File: av, Func: "Document.writeJSONValue", Name: "writeJSONKinds"},
+		{Kind: "calls", File: av, Func: "Document.writeJSONValue", Name: "writeJSONValue", Match: jm},
+		{Kind: "calls", File: av, Func: "escapeControlCharacters", Name: "escapeControlCharacters", Match: jm},
+		{Kind: "conds", File: av, Func: "escapeControlCharacters", Name: "escapeControlCases"},
+		{Kind: "calls", File: asv, Func: "Document.BlockStringValueContentBytes", Name: "blockStringValue", Match: jm},
+		{Kind: "calls", File: asv, Func: "Document.BlockStringValueContentRawBytes", Name: "blockStringRaw", Match: jm},
+		{Kind: "calls", File: "v2/pkg/lexer/lexer.go", Func: "Lexer.readDigit", Name: "lexReadDigit", Match: []string{"if", "return", "for", "l.*", "runeIsDigit", "tok.*"}},
+		{Kind: "calls", File: "v2/pkg/lexer/lexer.go", Func: "Lexer.readFloat", Name: "lexReadFloat", Match: []string{"if", "return", "for", "l.*", "runeIsDigit", "tok.*"}},
+	}
 	// C19: message-type switches, close codes and call skeletons of the two protocol handlers, the read loop and the engine
 	tws := "execution/subscription/websocket/protocol_graphql_transport_ws.go"
 	lws := "execution/subscription/websocket/protocol_graphql_ws.go"
